@@ -336,7 +336,7 @@ def part2(chk):
 
 
 # ------------------------------------------------------------------------------------------- operator trees
-def gen_tree(rng, depth, rows, cols, k=None):
+def gen_tree(rng, depth, rows, cols, k=None, top=False):
     """Random tree of the grammar of LinOp/C01/OpTree.lean with outer size rows x cols.
     Returns (tokens(member) -> list of driver tokens, build() -> library operator); with `k` every leaf tensor carries a
     leading batch dim k (the k members are the blocks of an enclosing Block*/SumBatch operator)."""
@@ -371,9 +371,74 @@ def gen_tree(rng, depth, rows, cols, k=None):
             common = [d for d in (2, 3) if rows % d == 0 and cols % d == 0]
             if common:
                 choices += ["binter"]
+    # constructors added to the grammar (leaves are available at every depth)
+    from linear_operator.operators import (
+        CholLinearOperator, ConstantDiagLinearOperator, IdentityLinearOperator, KernelLinearOperator, LowRankRootLinearOperator,
+        MulLinearOperator, PermutationLinearOperator, TransposePermutationLinearOperator, TriangularLinearOperator, ZeroLinearOperator,
+    )
+    choices += ["zero", "kern"]
+    if rows == cols:
+        choices += ["eye", "cdiag"]
+        if top:  # permutation operators are float32-only: kept at the root / under transposes of an otherwise float64 tree
+            choices += ["perm", "perm"]
+            if k is None and rows in (1, 4):
+                choices += ["tperm", "tperm"]
+        if depth > 0:
+            choices += ["chol", "lrr", "lrad"]
+            if rows <= 3:  # (the un-memoised interpreter is slow on the rank-expanded formula: small sizes, leaf roots)
+                choices += ["mulr"]
+            if rows >= 2:
+                choices += ["kad"]
     c = rng.choice(choices)
     if c == "dense":
         return leaf_dense()
+    if c == "zero":
+        return (lambda i: ["zero", str(rows), str(cols)]), (lambda: ZeroLinearOperator(*b, rows, cols, dtype=dt))
+    if c == "kern":
+        x1, x2 = ri(rng, (*b, rows, 2), -2, 2, dt), ri(rng, (*b, cols, 2), -2, 2, dt)
+        return ((lambda i: ["kern", M(sel(x1, i) @ sel(x2, i).mT), M(sel(x2, i) @ sel(x1, i).mT)]),
+                (lambda: KernelLinearOperator(x1.clone(), x2.clone(), cat.poly_kernel)))
+    if c == "perm":
+        nbm = 1 if k is None else k
+        pm = torch.stack([torch.tensor(rng.sample(range(rows), rows)) for _ in range(nbm)])
+        iv = torch.argsort(pm, dim=-1)
+        pm_, iv_ = (pm[0], iv[0]) if k is None else (pm, iv)
+        give_inv = rng.random() < 0.5
+        return ((lambda i: ["perm", M(sel(pm_, i)[None].double()), M(sel(iv_, i)[None].double())]),
+                (lambda: PermutationLinearOperator(pm_.clone(), iv_.clone()) if give_inv else PermutationLinearOperator(pm_.clone())))
+    if c == "tperm":
+        mm_ = 1 if rows == 1 else 2
+        return (lambda i: ["tperm", str(mm_)]), (lambda: TransposePermutationLinearOperator(mm_))
+    if c == "eye":
+        return (lambda i: ["eye", str(rows)]), (lambda: IdentityLinearOperator(rows, batch_shape=torch.Size(b), dtype=dt))
+    if c == "cdiag":
+        cv = ri(rng, (*b, 1), -2, 3, dt)
+        return (lambda i: ["cdiag", str(rows), str(int(sel(cv, i)[0]))]), (lambda: ConstantDiagLinearOperator(cv.clone(), diag_shape=rows))
+    if c == "chol":
+        up = rng.random() < 0.5
+        Tm = torch.tril(ri(rng, (*b, rows, rows), -2, 2, dt))
+        Tm = Tm.mT.contiguous() if up else Tm
+        return ((lambda i: ["chol", "1" if up else "0", "dense", M(sel(Tm, i))]),
+                (lambda: CholLinearOperator(TriangularLinearOperator(Tm.clone(), upper=up), upper=up)))
+    if c == "mulr":
+        (ta, ba), (tb, bb) = gen_tree(rng, 0, rows, rng.randint(1, 2), k), gen_tree(rng, 0, rows, rng.randint(1, 2), k)
+        return (lambda i: ["mulr"] + ta(i) + tb(i)), (lambda: MulLinearOperator(RootLinearOperator(ba()), RootLinearOperator(bb())))
+    if c == "lrr":
+        ta, ba = gen_tree(rng, depth - 1, rows, rng.randint(1, 2), k)
+        return (lambda i: ["lrr"] + ta(i)), (lambda: LowRankRootLinearOperator(ba()))
+    if c == "lrad":  # LowRankRootAddedDiag = addedDiag (lowRankRoot a) d  (the class inherits AddedDiag's _matmul)
+        from linear_operator.operators import LowRankRootAddedDiagLinearOperator
+        d = ri(rng, (*b, rows), 1, 3, dt)
+        ta, ba = gen_tree(rng, depth - 1, rows, rng.randint(1, 2), k)
+        return ((lambda i: ["adiag", M(sel(d, i)[None]), "lrr"] + ta(i)),
+                (lambda: LowRankRootAddedDiagLinearOperator(LowRankRootLinearOperator(ba()), DiagLinearOperator(d.clone()))))
+    if c == "kad":  # KroneckerProductAddedDiag = addedDiag (kron a b) d
+        from linear_operator.operators import KroneckerProductAddedDiagLinearOperator
+        r1 = rng.choice([d_ for d_ in range(1, rows + 1) if rows % d_ == 0])
+        d = ri(rng, (*b, rows), 1, 3, dt)
+        (ta, ba), (tb, bb) = gen_tree(rng, depth - 1, r1, r1, k), gen_tree(rng, depth - 1, rows // r1, rows // r1, k)
+        return ((lambda i: ["adiag", M(sel(d, i)[None]), "kron"] + ta(i) + tb(i)),
+                (lambda: KroneckerProductAddedDiagLinearOperator(KroneckerProductLinearOperator(ba(), bb()), DiagLinearOperator(d.clone()))))
     if c == "diag":
         d = ri(rng, (*b, rows), -2, 2, dt)
         return (lambda i: ["diag", M(sel(d, i)[None])]), (lambda: DiagLinearOperator(d.clone()))
@@ -396,7 +461,7 @@ def gen_tree(rng, depth, rows, cols, k=None):
         ta, ba = gen_tree(rng, depth - 1, rows, rng.randint(1, 3), k)
         return (lambda i: ["root"] + ta(i)), (lambda: RootLinearOperator(ba()))
     if c == "T":
-        ta, ba = gen_tree(rng, depth - 1, cols, rows, k)
+        ta, ba = gen_tree(rng, depth - 1, cols, rows, k, top=top)
         return (lambda i: ["T"] + ta(i)), (lambda: ba().mT)
     if c == "kron":
         r1, c1 = rng.choice(divs_r), rng.choice(divs_c)
@@ -425,16 +490,36 @@ def gen_tree(rng, depth, rows, cols, k=None):
     raise AssertionError(c)
 
 
+def _dn(t):
+    """lazily represented results (ZeroLinearOperator @ tensor) are densified"""
+    return t if torch.is_tensor(t) else t.to_dense()
+
+
+def tree_translator_check(chk):
+    """The grammar models LowRankRootAddedDiag / KroneckerProductAddedDiag / LowRankRoot as nestings because these classes
+    inherit `_matmul` / `_t_matmul`; Chol inherits `_t_matmul` from Root.  Checked against the live classes."""
+    import linear_operator.operators as O
+    for cls, names in ((O.LowRankRootAddedDiagLinearOperator, ("_matmul", "_t_matmul")), (O.KroneckerProductAddedDiagLinearOperator, ("_matmul", "_t_matmul")),
+                       (O.LowRankRootLinearOperator, ("_matmul", "_t_matmul")), (O.CholLinearOperator, ("_t_matmul",)),
+                       (O.ConstantDiagLinearOperator, ("_matmul", "_t_matmul"))):
+        for nm in names:
+            if nm in cls.__dict__:
+                chk.proof_break(f"translator(C01 tree grammar: {cls.__name__}.{nm})", f"{cls.__name__} now defines its own {nm}; the tree grammar models it as inherited")
+    if O.LowRankRootAddedDiagLinearOperator.__mro__[1] is not O.AddedDiagLinearOperator or O.AddedDiagLinearOperator not in O.KroneckerProductAddedDiagLinearOperator.__mro__:
+        chk.proof_break("translator(C01 tree grammar: AddedDiag subclasses)", "class hierarchy changed")
+
+
 def part3(chk):
     """Operator trees: the Lean tree evaluator (`Op.eval`, proved to refine `Op.denseSem` for every tree) vs the nested
     library operator: `_matmul`, `to_dense`, `_t_matmul`."""
     rng = chk.rng
-    ntrees = 40 if chk.tier == "quick" else 400
+    tree_translator_check(chk)
+    ntrees = 80 if chk.tier == "quick" else 600
     cs = []
     for _ in range(ntrees):
         rows, cols = rng.choice([1, 2, 3, 4, 6]), rng.choice([1, 2, 3, 4, 6])
         depth = rng.choice([1, 2, 2, 3])
-        toks, build = gen_tree(rng, depth, rows, cols)
+        toks, build = gen_tree(rng, depth, rows, cols, top=True)
         tk = toks(0)
         X, Y = ri(rng, (cols, 2), -2, 2), ri(rng, (rows, 1), -2, 2)
         shape = " ".join(t for t in tk if not any(ch.isdigit() for ch in t) or t in ("T",))
@@ -449,11 +534,19 @@ def part3(chk):
         try:
             with warnings.catch_warnings():
                 warnings.simplefilter("ignore")
-                impl = M(build()._matmul(X.clone())) + " # " + M(build().to_dense()) + " # " + M(build()._t_matmul(Y.clone()))
+                from linear_operator.operators import LinearOperator
+                D_ = build().to_dense()
+                impl = " # ".join([M(_dn(build()._matmul(X.clone()))), M(D_), M(_dn(build()._t_matmul(Y.clone()))),
+                                   M(_dn(build() @ X[:, 0].clone())[None]), M(_dn(Y[:, 0].clone() @ build())[None]),
+                                   M(_dn(build().rmatmul(Y.mT.clone())))])
+                if tuple((build() @ X[:, 0].clone()).shape) != (D_.shape[0],) or tuple((Y[:, 0].clone() @ build()).shape) != (D_.shape[1],):
+                    impl += " # bad 1-D shape"
         except Exception as e:
             impl = f"raised {type(e).__name__}: {e}"[:200]
         if impl == model:
             chk.traces_validated += 1
+        elif "Trying to lazily add two DiagLinearOperators" in impl:
+            chk.count("tree-ctor-refused:AddedDiag(Diag-like,Diag)")  # documented refusal of the constructor (Identity / ConstantDiag / Diag base)
         else:
             chk.violation(cell, f"nested operator differs from the Lean tree evaluator (proved = dense semantics of the tree): `{line[:300]}` model `{model[:200]}` impl `{impl[:200]}`",
                           {"line": line, "model": model, "impl": impl})
